@@ -118,7 +118,7 @@ def run(chk, replay=None):
         raise vf.MachineryError("python reference does not reproduce the XEP-0115 5.2 example")
     # 1. design level.  The generator configurations carry the invariants and action properties too, so one TLC run
     #    per bounded model both checks it exhaustively and exports its transitions.
-    tours = ["Feats"] if replay else ["Mix", "Ids", "Feats", "Form"] + ([] if quick else ["Big", "Form3", "Feats5"])
+    tours = ["Feats"] if replay else ["Mix", "IdsQ" if quick else "Ids", "Feats", "Form"] + ([] if quick else ["Big", "Form3", "Feats5"])
     jobs = [lambda: vf.tlc_mc("CapsInj.tla", "CapsInj.cfg", workers=1)]
     for t in tours:
         jobs.append(lambda t=t: vf.tlc_gen("CapsGen.tla", f"CapsGen{t}.cfg", keep_prefixes=True, timeout=2400))
@@ -137,7 +137,7 @@ def run(chk, replay=None):
         if replay:
             break
         big = t in ("Big", "Form3", "Feats5")
-        tree, near, emits, others, nstates = _select(tour, rnd, n_emit=100 if quick else 1000, n_trans=100 if quick else 2000)
+        tree, near, emits, others, nstates = _select(tour, rnd, n_emit=60 if quick else 1000, n_trans=60 if quick else 2000)
         if big:   # the product models are for TLC; replay a seeded sample of their state-covering behaviours
             rnd.shuffle(tree)
             tree = tree[:2000]
@@ -148,7 +148,7 @@ def run(chk, replay=None):
         for idx, b in enumerate(tree):
             if t == "Feats" or (t in ("Ids", "Form") and not quick):
                 al = names
-            elif t in ("Ids", "Form"):
+            elif t in ("IdsQ", "Form"):
                 al = list(dict.fromkeys([names[idx % len(names)], "nonbmp"]))
             else:
                 al = [names[idx % len(names)]]
@@ -169,7 +169,7 @@ def run(chk, replay=None):
         sim, st = res[-1]
         sim.sort(key=lambda b: json.dumps(b["steps"], sort_keys=True))
         rnd.shuffle(sim)
-        sim = sim[:300 if quick else 6000]
+        sim = sim[:150 if quick else 6000]
         for idx, b in enumerate(sim):
             behs.append({"alpha": names[idx % len(names)], "lm1": (idx % 3 == 2), "src": "Sim", "steps": b["steps"]})
         gen_stats["simulate"] = st
